@@ -86,6 +86,11 @@ class Frame:
         return Frame(self.fn, dict(self.env), self.defcls, self.closure, self.globs, self.qual)
 
 
+def _is_lru(v):
+    import functools
+    return isinstance(v, functools._lru_cache_wrapper)
+
+
 class Interp:
     def __init__(self, contracts=None, opaque_calls=None, feas_timeout=5000):
         self.contracts = contracts or {}
@@ -847,7 +852,11 @@ class Interp:
             if k is not None and self.is_repo_cls(k):
                 if isinstance(v, types.FunctionType):
                     return BoundFn(v, obj, k)
+                if _is_lru(v):
+                    return Special("lrumethod", v, obj)       # functools.lru_cache on a method: self is part of the key
                 if isinstance(v, property):
+                    if _is_lru(v.fget):
+                        return self.call(v.fget, [obj], {})
                     return self.call_function(v.fget, [obj], {}, defcls=k)
                 if isinstance(v, classmethod):
                     return BoundFn(v.__func__, obj.cls, k)
@@ -902,6 +911,10 @@ class Interp:
             if k is not None and self.is_repo_cls(k):
                 if isinstance(v, types.FunctionType) and self.is_repo_fn(v):
                     return BoundFn(v, obj, k)
+                if _is_lru(v):
+                    return Special("lrumethod", v, obj)
+                if isinstance(v, property) and _is_lru(v.fget):
+                    return self.call(v.fget, [obj], {})
                 if isinstance(v, property) and self.is_repo_fn(v.fget):
                     return self.call_function(v.fget, [obj], {}, defcls=k)
                 if isinstance(v, classmethod):
